@@ -850,7 +850,15 @@ pub fn pool(f: &FieldRow) -> (Vec<&'static str>, Vec<&'static str>) {
         "Priority" | "crate::fields::Priority" => (vec!["optional", "required", "extra"], vec!["Optional", "", "low"]),
         "crate::fields::MultiArch" => (vec!["same", "foreign", "no", "allowed"], vec!["Same", "yes", ""]),
         "YesNoForce" => (vec!["yes", "no", "force"], vec!["Force", "", "true"]),
-        "Relations" => (vec!["a", "a (>= 1.0), b | c", "libc6 (>= 2.17) [amd64]", "", "a,b", "a  ( >= 1 )"], vec!["a (", "a (>= 1", "(", "a b"]),
+        // lists mixing negated and plain terms, several lists, qualifiers: the typed value must carry
+        // what the lossless reader shows (after seeded change C20-r7m1)
+        "Relations" => (
+            vec![
+                "a", "a (>= 1.0), b | c", "libc6 (>= 2.17) [amd64]", "", "a,b", "a  ( >= 1 )",
+                "a <!nocheck cross>", "a [!amd64 i386]", "a [amd64 !i386] <!x y> <z !w>", "a:any (<< 2) [!hurd-i386 linux-any] <!stage1 pkg.foo.full> | b",
+            ],
+            vec!["a (", "a (>= 1", "(", "a b"],
+        ),
         "url::Url" => (vec!["https://example.org/", "https://example.org", "http://a.b/c?d=e#f", "HTTPS://EXAMPLE.ORG/x y"], vec!["not a url", "", "/relative"]),
         "Vec<Url>" => (vec!["https://example.org/", "https://a.org/ http://b.org/x", "", "https://example.org"], vec!["nope", "https://a.org/ nope"]),
         "debversion::Version" => (vec!["1.0-1", "1:2.3~rc1-4", "0", "1.0-1 "], vec!["", "a:1", "1 2"]),
